@@ -400,6 +400,7 @@ cdef class LineProfiler:
         cdef dict cmap = self._c_code_map
 
         stats = {}
+        merged_by_key = {}
         for code in self.code_hash_map:
             entries = []
             for entry in self.code_hash_map[code]:
@@ -407,8 +408,10 @@ cdef class LineProfiler:
             key = label(code)
 
             # Merge duplicate line numbers, which occur for branch entrypoints like `if`
-            nhits_by_lineno = {}
-            total_time_by_lineno = {}
+            # Note: code objects can share a label (e.g. when a function is
+            # added again and gets a NOP-padded copy of its code), so the
+            # counts are accumulated per label instead of overwritten
+            nhits_by_lineno, total_time_by_lineno = merged_by_key.setdefault(key, ({}, {}))
 
             for line_dict in entries:
                  _, lineno, total_time, nhits = line_dict.values()
